@@ -42,4 +42,16 @@ PROPS = {
         "assumptions": ["generator outputs are arbitrary 64-bit words (theorems quantify over all offset sequences in range)", "uniformity statement is relative to uniform offsets (ideal generator)"],
         "theorems": ["PMH.C17.next_inv", "PMH.C17.block_is_perm", "PMH.C17.reset_forgets", "PMH.C17.reset_like_new", "PMH.C17.offsets_bijective", "PMH.C17.floor_offset_lt"],
     },
+    "C18": {
+        "module": "PMH.Props.C18",
+        "steps": ["miri_sig"],
+        "level_text": "partial: faithfulness is proved (for the model of all ten Sig impls: length = width x len, bytes < 256, value -> bytes injective on the type's range, vectors = concatenation, String = UTF-8 bytes) and tied to the code by byte-exact correspondence on boundary/random values and vectors of 0..300 (thorough 20000) elements; the memory-safety clause cannot be a Lean theorem (heap ownership is outside the model) and rests on Miri over a mini-crate that #[path]-includes the real sig.rs plus child-process runs of the Vec<u16>/Vec<u32> impls - these are observations, not proofs",
+        "level_note": "trusted: Lean kernel; model + correspondence; little-endian target (x86-64) for to_ne_bytes; Miri / process exit status for memory safety (testing, not proof)",
+        "technique": "Lean 4 injectivity/length theorems over a model of sig.rs + byte-exact differential run + Miri on the included source",
+        "rule": "boundary and random scalars of every width, fixed and random strings (1-4 byte code points), vectors of length 0,1,2,3,20,300 (thorough: up to 20000): bytes of the real impl vs the model; Vec<u16>/Vec<u32> run in a child process (a memory error aborts); non-trivial = all; distinct = distinct input",
+        "trusted_base": TB_COMMON + ["Miri (nightly) for the memory-safety clause: an observation on the exercised inputs"],
+        "not_mechanised": ["'never reads or frees memory it does not own' - checked by Miri and child-process exit status only"],
+        "assumptions": ["little-endian target"],
+        "theorems": ["PMH.C18.sigU16_inj", "PMH.C18.sigU32_inj", "PMH.C18.sigU64_inj", "PMH.C18.sigVecU16_inj", "PMH.C18.sigVecU32_inj", "PMH.C18.sigString_inj"],
+    },
 }
